@@ -127,6 +127,9 @@ func accessPath(v ssa.Value) string {
 				return accessPath(a.X) + "[]"
 			}
 		}
+	case *ssa.FieldAddr:
+		st := pointee(t.X.Type()).Underlying().(*types.Struct)
+		return accessPath(t.X) + "." + st.Field(t.Field).Name()
 	case *ssa.Field:
 		st := t.X.Type().Underlying().(*types.Struct)
 		return accessPath(t.X) + "." + st.Field(t.Field).Name()
@@ -265,6 +268,11 @@ func isLoggerType(t types.Type) bool {
 }
 
 func (x *Exec) unknownCall(st *State, fr *Frame, dst ssa.Value, c *ssa.CallCommon, fv *Val, args []*Val, pos token.Pos, method string, sig *types.Signature) {
+	for _, a := range args {
+		if a != nil && a.Cell != nil {
+			unsupportedf("pointer to local variable %s passed to unknown code", a.Cell.Name)
+		}
+	}
 	if method != "" && isLoggerType(c.Value.Type()) {
 		x.note("watermill.LoggerAdapter methods: assumed total and without effect on tracked state")
 		x.bindFresh(st, fr, dst, sig, "log")
@@ -332,6 +340,28 @@ func (x *Exec) unknownCall(st *State, fr *Frame, dst ssa.Value, c *ssa.CallCommo
 		}
 		st.setGhost("calls$"+label, Add(k, IntLit(1)))
 	}
+	if strings.HasPrefix(strings.TrimSpace(behaviour), "function ") {
+		// a pure total function of the callee value and its arguments: result == F(callee, args...)
+		fname := strings.TrimSpace(strings.TrimPrefix(strings.TrimSpace(behaviour), "function "))
+		x.note("ASSUMED: calls through " + what + " behave as the uninterpreted total function " + fname + " of the callee value and its arguments")
+		ts := []*Term{fv.Term}
+		for _, a := range args {
+			flatten(a, &ts)
+		}
+		var rs []*Val
+		for ri := 0; ri < sig.Results().Len(); ri++ {
+			rt := sig.Results().At(ri).Type()
+			n := "spec$" + fr.Fn.Package().Pkg.Name() + "." + fname
+			if ri > 0 {
+				n += fmt.Sprintf("$%d", ri)
+			}
+			r := &Val{T: rt, Term: UF(n, leafSort(rt), ts...)}
+			st.assumeValAllocated(r)
+			rs = append(rs, r)
+		}
+		x.bindResult(fr, dst, rs)
+		return
+	}
 	total := strings.Contains(behaviour, "total") || strings.Contains(behaviour, "nopanic")
 	if !total {
 		ps := x.fork(st)
@@ -372,6 +402,10 @@ func (x *Exec) unknownCall(st *State, fr *Frame, dst ssa.Value, c *ssa.CallCommo
 
 // siteAsserts evaluates `assert @SITE#k: e` clauses for the site reached.
 func (x *Exec) siteAsserts(st *State, fr *Frame, site string, pos token.Pos) {
+	x.siteAssertsWith(st, fr, site, pos, nil)
+}
+
+func (x *Exec) siteAssertsWith(st *State, fr *Frame, site string, pos token.Pos, extra map[string]*Val) {
 	if x.FC == nil || len(st.Frames) != 1 {
 		return
 	}
@@ -379,6 +413,9 @@ func (x *Exec) siteAsserts(st *State, fr *Frame, site string, pos token.Pos) {
 	for _, cl := range x.FC.Of("assert") {
 		if cl.Site == site || cl.Site == fmt.Sprintf("%s#%d", site, k) {
 			env := x.envAt(st, fr)
+			for n, v := range extra {
+				env.Vars[n] = v
+			}
 			g := x.V.evalBool(env, cl.E)
 			x.oblige(st, "assert", fmt.Sprintf("assert:%s@%s#%d", cl.Label, site, k), g, pos, cl.Text)
 		}
@@ -640,6 +677,15 @@ func (x *Exec) modItems(env *Env, cl *Clause) []modItem {
 			}
 			v := x.V.eval(env, e)
 			items = append(items, modItem{"G$closed", v.Term}, modItem{"G$clen", v.Term})
+		case strings.HasPrefix(it, "anymap("):
+			// every map of the named map type may change
+			mt, ok := x.V.resolveType(env, it[7:len(it)-1]).Underlying().(*types.Map)
+			if !ok {
+				unsupportedf("modifies %s: not a map type", it)
+			}
+			regMapSorts(mt)
+			hk, lk, vp := mapKeys(mt)
+			items = append(items, modItem{hk, nil}, modItem{lk, nil}, modItem{vp + "$*", nil})
 		case strings.HasPrefix(it, "map("):
 			e, err := ParseExpr(it[4 : len(it)-1])
 			if err != nil {
@@ -654,8 +700,10 @@ func (x *Exec) modItems(env *Env, cl *Clause) []modItem {
 			if err != nil {
 				panic(unsupported{err.Error()})
 			}
-			v := x.V.eval(env, e)
-			items = append(items, modItem{"G$wg", x.refOf(v)})
+			v := x.V.syncRef(env, e)
+			items = append(items, modItem{"G$wg", x.refOf(v)}, modItem{"G$wgmine", x.refOf(v)})
+			regSort("G$wg", ArrSort(SInt, SInt))
+			regSort("G$wgmine", ArrSort(SInt, SInt))
 		case strings.HasPrefix(it, "field("):
 			// whole heap family of one field of a struct type of this package: field(T.f)
 			inner := it[6 : len(it)-1]
@@ -808,8 +856,9 @@ func (x *Exec) exitFunction(st *State, fr *Frame, res []*Val, panicked bool, pos
 		for _, cl := range x.FC.Of("panics-when") {
 			e0 := *env
 			e0.St = nil
-			e0.Epoch = 0
-			e0.Heap = x.Entry.OldHeap
+			e0.LocalSt = st
+			e0.Epoch = env.OldEpoch
+			e0.Heap = env.OldHeap
 			g := x.V.evalBool(&e0, cl.E)
 			x.oblige(st, "post", "panics-only-when:"+cl.Label, g, pos, cl.Text)
 		}
@@ -825,8 +874,9 @@ func (x *Exec) exitFunction(st *State, fr *Frame, res []*Val, panicked bool, pos
 	for _, cl := range x.FC.Of("panics-when") {
 		e0 := *env
 		e0.St = nil
-		e0.Epoch = 0
-		e0.Heap = x.Entry.OldHeap
+		e0.LocalSt = st
+		e0.Epoch = env.OldEpoch
+		e0.Heap = env.OldHeap
 		g := x.V.evalBool(&e0, cl.E)
 		x.oblige(st, "post", "returns-only-when-not:"+cl.Label, Not(g), pos, cl.Text)
 	}
@@ -887,8 +937,9 @@ func (x *Exec) checkFrame(st *State, env *Env, pos token.Pos) {
 			claimed = true
 		}
 	}
-	if !claimed {
-		return // frame not claimed
+	_ = claimed // a contract without a modifies clause means "modifies nothing": the frame is always checked
+	if x.Fn.Synthetic == "package initializer" {
+		return // the initializer's job is to write the package's globals
 	}
 	oldEnv := *env
 	oldEnv.St = nil
@@ -916,7 +967,7 @@ func (x *Exec) frameObls(st *State, items []modItem, oldHeap map[string]*Term, o
 		if cur == old {
 			continue
 		}
-		if f == "G$alloc" || f == "G$wgmine" || strings.HasPrefix(f, "G$sret$") || strings.HasPrefix(f, "G$sarg$") || strings.HasPrefix(f, "G$cancelled") || strings.HasPrefix(f, "G$ncalls$") || strings.HasPrefix(f, "G$calls$") || strings.HasPrefix(f, "G$arg$") || strings.HasPrefix(f, "G$ret$") || strings.HasPrefix(f, "G$panicked$") || strings.HasPrefix(f, "G$visited$") || strings.HasPrefix(f, "G$spawned") {
+		if f == "G$alloc" || f == "G$wgmine" || strings.HasPrefix(f, "G$recv") || strings.HasPrefix(f, "G$sen") || strings.HasPrefix(f, "G$spawn") || strings.HasPrefix(f, "G$jsondecoded") || strings.HasPrefix(f, "G$protodecoded") || strings.HasPrefix(f, "G$panicval") || strings.HasPrefix(f, "G$sret$") || strings.HasPrefix(f, "G$sarg$") || strings.HasPrefix(f, "G$cancelled") || strings.HasPrefix(f, "G$ncalls$") || strings.HasPrefix(f, "G$calls$") || strings.HasPrefix(f, "G$arg$") || strings.HasPrefix(f, "G$ret$") || strings.HasPrefix(f, "G$panicked$") || strings.HasPrefix(f, "G$visited$") || strings.HasPrefix(f, "G$spawned") {
 			continue
 		}
 		if x.V.isShared(f) {
@@ -1000,6 +1051,27 @@ func (x *Exec) loopHead(st *State, fr *Frame, l *Loop, from *ssa.BasicBlock) {
 	if back {
 		phase = "step"
 	}
+	// ghost lets bound at this loop's first arrival (before the havoc)
+	if x.FC != nil && !back {
+		for _, cl := range x.FC.Of("ghost") {
+			if strings.HasPrefix(cl.Text, "let ") && strings.HasSuffix(cl.Text, fmt.Sprintf("@loop %d", l.N)) {
+				body := strings.TrimSuffix(strings.TrimPrefix(cl.Text, "let "), fmt.Sprintf("@loop %d", l.N))
+				parts := strings.SplitN(body, "=", 2)
+				e, err := ParseExpr(strings.TrimSpace(parts[1]))
+				if err != nil {
+					panic(unsupported{err.Error()})
+				}
+				gv := x.V.eval(env, e)
+				nm := map[string]*Val{}
+				for k, v := range st.GhostLets {
+					nm[k] = v
+				}
+				nm[strings.TrimSpace(parts[0])] = gv
+				st.GhostLets = nm
+				x.ghostLetTypes[strings.TrimSpace(parts[0])] = gv.T
+			}
+		}
+	}
 	if ri := x.autoRangeIndex(st, fr, l); ri != nil {
 		x.oblige(st, "inv", fmt.Sprintf("inv:loop%d:auto-rangeindex:%s", l.N, phase), ri, l.Pos, "-1 <= rangeindex < len")
 	}
@@ -1012,6 +1084,51 @@ func (x *Exec) loopHead(st *State, fr *Frame, l *Loop, from *ssa.BasicBlock) {
 		for _, cl := range x.FC.Of("modifies") {
 			if cl.Loop == l.N {
 				lmods = append(lmods, cl)
+			}
+		}
+	}
+	if x.FC != nil && len(lmods) == 0 {
+		// the function's own frame is an invariant of each of its loops
+		oldEnv := *env
+		oldEnv.St = nil
+		oldEnv.Epoch = 0
+		oldEnv.Heap = x.Entry.OldHeap
+		oldEnv.LocalSt = st
+		var items []modItem
+		ok := true
+		func() {
+			defer func() {
+				if r := recover(); r != nil {
+					if _, isU := r.(unsupported); isU {
+						ok = false
+						return
+					}
+					panic(r)
+				}
+			}()
+			for _, cl := range x.FC.Of("modifies") {
+				if cl.Loop == 0 {
+					items = append(items, x.modItems(&oldEnv, cl)...)
+				}
+			}
+		}()
+		if ok {
+			x.frameObls(st, items, x.Entry.OldHeap, 0, fmt.Sprintf("inv:loop%d:auto-frame:%s", l.N, phase), l.Pos)
+			if !back {
+				defer func() {
+					if st.Done {
+						return
+					}
+					// after the havoc: re-assume the frame for the families that were havocked
+					saved := x.Obls
+					x.frameObls(st, items, x.Entry.OldHeap, 0, "tmp", l.Pos)
+					for _, o := range x.Obls[len(saved):] {
+						if !o.Goal.IsTrue() {
+							st.Assume(generalizeFrame(o.Goal))
+						}
+					}
+					x.Obls = saved
+				}()
 			}
 		}
 	}
@@ -1172,11 +1289,16 @@ func (x *Exec) havocLoopImpl(st *State, fr *Frame, l *Loop, cellsOnly bool) {
 		}
 		st.Epoch++
 	}
+	needInterf := fams["!interfere"]
+	delete(fams, "!interfere")
 	var names []string
 	for f := range fams {
 		names = append(names, f)
 	}
 	sort.Strings(names)
+	if needInterf {
+		defer x.interfere(st, "loop head")
+	}
 	oldAlloc := st.ghostArr("alloc", SBool)
 	for _, f := range names {
 		if strings.HasSuffix(f, "*") {
@@ -1234,35 +1356,15 @@ func (x *Exec) staticCallEffects(st *State, c *ssa.CallCommon, fams map[string]b
 }
 
 func (x *Exec) sharedFamilies(st *State, fams map[string]bool) {
-	{
-		// interference: monitored families and channel/waitgroup ghost state
-		for _, n := range st.heapNames() {
-			if x.V.isShared(n) || strings.HasPrefix(n, "G$calls$") || strings.HasPrefix(n, "G$arg$") || strings.HasPrefix(n, "G$ret$") || strings.HasPrefix(n, "G$panicked$") || strings.HasPrefix(n, "G$ncalls$") || strings.HasPrefix(n, "G$spawn") || strings.HasPrefix(n, "G$sen") || strings.HasPrefix(n, "G$recv") {
-				fams[n] = true
-			}
-		}
-		for _, n := range []string{"G$closed", "G$clen", "G$wg"} {
+	// ghost logs move; monitor-guarded state and channel/waitgroup ghost state change only by
+	// interference (applied once at the loop head, respecting held locks and thread-local objects)
+	for _, n := range st.heapNames() {
+		if strings.HasPrefix(n, "G$calls$") || strings.HasPrefix(n, "G$arg$") || strings.HasPrefix(n, "G$ret$") || strings.HasPrefix(n, "G$panicked$") || strings.HasPrefix(n, "G$panicval$") || strings.HasPrefix(n, "G$ncalls$") || strings.HasPrefix(n, "G$spawn") || strings.HasPrefix(n, "G$sen") || strings.HasPrefix(n, "G$recv") {
 			fams[n] = true
 		}
-		for tk, tc := range x.V.C.Types {
-			root := x.V.namedByName(tk)
-			if root == nil {
-				continue
-			}
-			for _, m := range tc.Monitors {
-				for f := range m.Guards {
-					ft := fieldTypeAt(root, []string{f})
-					var ls []leafInfo
-					leaves(ft, f, &ls)
-					for _, l := range ls {
-						regSort(heapKeyField(root, l.Path), ArrSort(SInt, l.Sort))
-						fams[heapKeyField(root, l.Path)] = true
-					}
-				}
-			}
-		}
-		fams["G$alloc"] = true
 	}
+	fams["G$alloc"] = true
+	fams["!interfere"] = true
 }
 
 func (x *Exec) staticCallEffects2(st *State, c *ssa.CallCommon, fams map[string]bool, depth int, shared func()) bool {
@@ -1457,6 +1559,8 @@ func (x *Exec) staticModFamilies(callee *ssa.Function, cl *Clause, fams map[stri
 			fams["G$"+it[6:len(it)-1]] = true
 		case strings.HasPrefix(it, "global("):
 			fams["V$"+pkg.Name()+"."+it[7:len(it)-1]+"$*"] = true
+		case strings.HasPrefix(it, "anymap("):
+			return false
 		case strings.HasPrefix(it, "map("):
 			e, err := ParseExpr(it[4 : len(it)-1])
 			if err != nil {
@@ -1683,4 +1787,31 @@ func (x *Exec) applyIfaceContract(st *State, fr *Frame, dst ssa.Value, c *ssa.Ca
 		st.Assume(x.V.evalBool(env, cl.E))
 	}
 	x.bindResult(fr, dst, res)
+}
+
+// generalizeFrame turns a frame goal stated for a fresh constant frame$r!k into the universally
+// quantified statement (used when the frame is assumed as a loop invariant).
+func generalizeFrame(g *Term) *Term {
+	var rc *Term
+	seen := map[*Term]bool{}
+	var find func(t *Term)
+	find = func(t *Term) {
+		if rc != nil || seen[t] {
+			return
+		}
+		seen[t] = true
+		if t.Kind == kConst && strings.HasPrefix(strings.Trim(t.Op, "|"), "frame$r!") {
+			rc = t
+			return
+		}
+		for _, a := range t.Args {
+			find(a)
+		}
+	}
+	find(g)
+	if rc == nil {
+		return g
+	}
+	bv := BoundVar("r", rc.Sort)
+	return Forall([]*Term{bv}, Subst(g, map[string]*Term{rc.Op: bv}))
 }
